@@ -45,7 +45,26 @@ def _window():
         invariants_note="MC config also checks NoLeakI (the I-layer never leaks) and POracleTotal; `lead` records P-clauses the I-layer fails")
 
 
+class LifeEntry:
+    def __init__(self, prop):
+        self.prop = prop
+
+    def run(self, tier):
+        from . import life, lifeprops
+        return lifeprops.run(self.prop, tier)
+
+    def replay(self, payload):
+        from . import lifeprops
+        return lifeprops.replay(self.prop, payload)
+
+    def selftest(self):
+        from . import lifeprops
+        return lifeprops.selftest(self.prop)
+
+
 _REG = {"C20": lambda: PureEntry(_window())}
+for _p in ("C01", "C02", "C03", "C04", "C05"):
+    _REG[_p] = (lambda p: (lambda: LifeEntry(p)))(_p)
 
 
 def get(prop):
